@@ -1,6 +1,9 @@
 package props
 
 import (
+	"go/token"
+	"go/types"
+	"strconv"
 	"strings"
 
 	"verif/checker/internal/an"
@@ -35,6 +38,286 @@ var handshakeRows = []hsRow{
 	{name: "dh_gen_ok.nonce", kind: "cmp", a: []string{"call:" + load.TLPkg + ".RandomInt128"}, b: []string{"objects.DHGenOk.Nonce"}},
 	{name: "dh_gen_ok.server_nonce", kind: "cmp", a: []string{"objects.ResPQ.ServerNonce"}, b: []string{"objects.DHGenOk.ServerNonce"}},
 	{name: "dh_gen_ok.new_nonce_hash1", kind: "bytes.Equal", a: []string{"objects.DHGenOk.NewNonceHash1"}, b: []string{load.TLPkg + ".RandomInt256", "field:mtproto.MTProto.authKey"}, bDeps: true},
+}
+
+// hsGuard is a comparison or comma-ok assertion that gates the rest of makeAuthKey: either a branch of makeAuthKey
+// itself, or a guard inside a repository helper whose result makeAuthKey branches on (the check extracted into
+// `func checkNonce(a, b) error` / `func sameNonce(a, b) bool`).
+type hsGuard struct {
+	kind    string // "equal" | "assert"
+	assertT string
+	xo, yo  []string  // origins of the operands, expressed in makeAuthKey's terms
+	xv, yv  ssa.Value // the operands (values of makeAuthKey or of the helper)
+	pass    an.Edge   // the edge of makeAuthKey taken when the operands agree
+	pos     token.Pos
+	helper  *ssa.Function
+	args    []ssa.Value // helper: actual arguments in makeAuthKey
+	via     string
+}
+
+// deps: transitive dependencies of an operand; a helper's parameter continues in the actual argument.
+func (g hsGuard) deps(v ssa.Value, descend func(*ssa.Function) bool) *an.Deps {
+	d := an.NewDeps(descend).Of(v)
+	if g.helper != nil {
+		for i, a := range g.args {
+			suffix := "#" + strconv.Itoa(i)
+			for k := range d.Roots {
+				if strings.HasPrefix(k, "param:") && strings.HasSuffix(k, suffix) {
+					d.Of(a)
+					break
+				}
+			}
+		}
+	}
+	return d
+}
+
+func equalityCond(cd *an.Cond) bool {
+	switch cd.Kind {
+	case "cmp":
+		return cd.Rel == "==" || cd.Rel == "!="
+	case "eq", "bytes.Equal":
+		return true
+	}
+	return false
+}
+
+// substParams rewrites helper-relative origins (root param#i) into the caller's origins of argument i.
+func substParams(os []string, args []ssa.Value, tr *an.Tracer) []string {
+	var out []string
+	for _, o := range os {
+		if !strings.HasPrefix(o, "param#") {
+			out = append(out, o)
+			continue
+		}
+		j := len("param#")
+		for j < len(o) && o[j] >= '0' && o[j] <= '9' {
+			j++
+		}
+		idx, err := strconv.Atoi(o[len("param#"):j])
+		if err != nil || idx >= len(args) {
+			out = append(out, o)
+			continue
+		}
+		for _, ao := range tr.Origins(args[idx]) {
+			out = append(out, ao+o[j:])
+		}
+	}
+	return out
+}
+
+// knownNonNilError: values that are certainly a non-nil error.
+func knownNonNilError(v ssa.Value) bool {
+	switch x := v.(type) {
+	case *ssa.MakeInterface:
+		return true
+	case *ssa.Call:
+		switch an.CalleeName(x.Common()) {
+		case "errors.New", "fmt.Errorf", "github.com/pkg/errors.New", "github.com/pkg/errors.Errorf":
+			return true
+		}
+	}
+	return false
+}
+
+// expandPhis lists the non-phi values a value may take along executable edges.
+func expandPhis(v ssa.Value, exec map[an.Edge]bool, seen map[ssa.Value]bool, out *[]ssa.Value) {
+	if seen[v] {
+		return
+	}
+	seen[v] = true
+	if phi, ok := v.(*ssa.Phi); ok {
+		for _, e := range an.PhiValues(phi, exec) {
+			expandPhis(e, exec, seen, out)
+		}
+		return
+	}
+	*out = append(*out, v)
+}
+
+// mayReturn: can helper h, with the given edges cut, return a value at result idx that means "fine"
+// (nil for an error result, the boolean p for a bool result)?
+func mayReturn(h *ssa.Function, idx int, isErr, p bool, cut map[an.Edge]bool) bool {
+	reach, exec := an.ReachExec(h, cut, nil)
+	for _, b := range h.Blocks {
+		if !reach[b] {
+			continue
+		}
+		ret, ok := b.Instrs[len(b.Instrs)-1].(*ssa.Return)
+		if !ok || idx >= len(ret.Results) {
+			continue
+		}
+		var vals []ssa.Value
+		expandPhis(ret.Results[idx], exec, map[ssa.Value]bool{}, &vals)
+		for _, v := range vals {
+			if isErr {
+				if !knownNonNilError(v) {
+					return true
+				}
+				continue
+			}
+			if k, ok := v.(*ssa.Const); ok && k.Value != nil {
+				if (k.Value.String() == "true") == p {
+					return true
+				}
+				continue
+			}
+			return true
+		}
+	}
+	return false
+}
+
+// hsGuards collects the guards of mk: its own classified branches and the guards of helpers it branches on.
+func (c *Ctx) hsGuards(mk *ssa.Function, tr *an.Tracer) (out []hsGuard, nbranches int) {
+	for _, i := range an.Ifs(mk) {
+		nbranches++
+		cd, ok := an.Classify(i)
+		if !ok {
+			continue
+		}
+		switch {
+		case cd.Kind == "assert":
+			out = append(out, hsGuard{kind: "assert", assertT: typeString(cd.Assert.AssertedType), xo: tr.Origins(cd.X), xv: cd.X, pass: cd.EdgeWhen(true), pos: i.Cond.Pos()})
+			continue
+		case equalityCond(cd):
+			out = append(out, hsGuard{kind: "equal", xo: tr.Origins(cd.X), yo: tr.Origins(cd.Y), xv: cd.X, yv: cd.Y, pass: cd.EdgeWhen(true), pos: i.Cond.Pos()})
+			continue
+		}
+		// a branch on a flag that accumulates a comparison (`found = found || a == b`, `found = a == b` in a loop):
+		// the flag can only be true when the comparison held for some element
+		if cd.Kind == "bool" {
+			if fl, isPhi := cd.X.(*ssa.Phi); isPhi {
+				done := false
+				for _, b := range mk.Blocks {
+					for _, in := range b.Instrs {
+						bv, ok := in.(*ssa.BinOp)
+						if !ok {
+							continue
+						}
+						vcd, ok := an.ClassifyValue(bv)
+						if !ok || !equalityCond(vcd) || !vcd.TrueIsEqual {
+							continue
+						}
+						acc := flagAccumulators(bv)
+						if !acc[fl] || !flagTrueImplies(mk, acc, bv) {
+							continue
+						}
+						out = append(out, hsGuard{kind: "equal", xo: tr.Origins(vcd.X), yo: tr.Origins(vcd.Y), xv: vcd.X, yv: vcd.Y, pass: cd.EdgeWhen(true), pos: i.Cond.Pos(), via: " (through a flag)"})
+						done = true
+					}
+				}
+				if done {
+					continue
+				}
+			}
+		}
+		// a branch on the result of a repository helper
+		var res ssa.Value
+		isErr := false
+		switch {
+		case cd.Kind == "nil":
+			res, isErr = cd.X, true
+		case cd.Kind == "bool":
+			res = cd.X
+		case strings.HasPrefix(cd.Kind, "call:"):
+			res = an.StripBoolWrappers(i.Cond)
+		default:
+			continue
+		}
+		idx := 0
+		if ex, ok := res.(*ssa.Extract); ok {
+			res, idx = ex.Tuple, ex.Index
+		}
+		call, ok := res.(*ssa.Call)
+		if !ok {
+			continue
+		}
+		h := an.StaticCallee(call.Common())
+		if h == nil || !c.P.InRepo(h) || len(h.Blocks) == 0 || isRequestBarrier(h) || h == mk {
+			continue
+		}
+		rt := h.Signature.Results()
+		if idx >= rt.Len() {
+			continue
+		}
+		if isErr && typeString(rt.At(idx).Type()) != "error" {
+			continue
+		}
+		if !isErr {
+			if b, ok := rt.At(idx).Type().Underlying().(*types.Basic); !ok || b.Kind() != types.Bool {
+				continue
+			}
+		}
+		args := call.Call.Args
+		pols := []bool{true}
+		if !isErr {
+			pols = []bool{true, false}
+		}
+		for _, p := range pols {
+			pass := cd.EdgeWhen(p)
+			if cd.Kind != "nil" && cd.Kind != "bool" {
+				// call:<name> — TrueIsEqual means "the true branch is taken when the call returns true"
+				pass = cd.EdgeWhen(p)
+			}
+			via := sprintf(" (inside helper %s, result %v)", an.ShortName(h), map[bool]string{true: "nil", false: "bool"}[isErr])
+			// form 1: a branch of the helper whose agree edge is on every path to a "fine" return
+			for _, hi := range an.Ifs(h) {
+				hcd, ok := an.Classify(hi)
+				if !ok || !(hcd.Kind == "assert" || equalityCond(hcd)) {
+					continue
+				}
+				if mayReturn(h, idx, isErr, p, map[an.Edge]bool{hcd.EdgeWhen(true): true}) {
+					continue
+				}
+				g := hsGuard{pass: pass, pos: i.Cond.Pos(), helper: h, args: args, via: via, xv: hcd.X, yv: hcd.Y}
+				g.xo = substParams(tr.Origins(hcd.X), args, tr)
+				if hcd.Kind == "assert" {
+					g.kind, g.assertT = "assert", typeString(hcd.Assert.AssertedType)
+				} else {
+					g.kind, g.yo = "equal", substParams(tr.Origins(hcd.Y), args, tr)
+				}
+				out = append(out, g)
+			}
+			// form 2: the helper returns the comparison itself
+			if isErr {
+				continue
+			}
+			_, exec := an.ReachExec(h, nil, nil)
+			var cmp ssa.Value
+			okForm := true
+			for _, b := range h.Blocks {
+				ret, ok := b.Instrs[len(b.Instrs)-1].(*ssa.Return)
+				if !ok || idx >= len(ret.Results) {
+					continue
+				}
+				var vals []ssa.Value
+				expandPhis(ret.Results[idx], exec, map[ssa.Value]bool{}, &vals)
+				for _, v := range vals {
+					if k, ok := v.(*ssa.Const); ok && k.Value != nil {
+						if (k.Value.String() == "true") == p {
+							okForm = false
+						}
+						continue
+					}
+					if cmp != nil && cmp != v {
+						okForm = false
+					}
+					cmp = v
+				}
+			}
+			if !okForm || cmp == nil {
+				continue
+			}
+			hcd, ok := an.ClassifyValue(cmp)
+			if !ok || !equalityCond(hcd) || hcd.TrueIsEqual != p {
+				continue
+			}
+			out = append(out, hsGuard{kind: "equal", pass: pass, pos: i.Cond.Pos(), helper: h, args: args, via: via, xv: hcd.X, yv: hcd.Y,
+				xo: substParams(tr.Origins(hcd.X), args, tr), yo: substParams(tr.Origins(hcd.Y), args, tr)})
+		}
+	}
+	return
 }
 
 func originHasAll(os []string, subs []string) bool {
@@ -155,84 +438,66 @@ func c07(c *Ctx) {
 	}
 	r.Extra["effects"] = edesc
 	tr := an.NewTracer()
-	type guard struct {
-		cond *an.Cond
-		xo   []string
-		yo   []string
+	guards, nbranches := c.hsGuards(fn, tr)
+	r.Extra["branches_in_makeAuthKey"] = nbranches
+	nh := 0
+	for _, g := range guards {
+		if g.helper != nil {
+			nh++
+		}
 	}
-	var guards []guard
-	unclassified := 0
-	for _, i := range an.Ifs(fn) {
-		cd, ok := an.Classify(i)
-		if !ok {
-			unclassified++
-			continue
-		}
-		g := guard{cond: cd}
-		if cd.X != nil {
-			g.xo = tr.Origins(cd.X)
-		}
-		if cd.Y != nil {
-			g.yo = tr.Origins(cd.Y)
-		}
-		guards = append(guards, g)
-	}
-	r.Extra["branches_in_makeAuthKey"] = len(guards) + unclassified
+	r.Extra["guards_found_in_helpers"] = nh
 	descend := c.inRepoOrDry
 	for _, row := range handshakeRows {
 		key := "guard:" + row.name
-		var cands []guard
+		want := "equal"
+		if row.kind == "assert" {
+			want = "assert"
+		}
+		var cands []hsGuard
 		for _, g := range guards {
-			cd := g.cond
-			if cd.Kind != row.kind {
+			if g.kind != want {
 				continue
 			}
-			switch row.kind {
-			case "assert":
-				if typeString(cd.Assert.AssertedType) != row.assert || !originHasAll(g.xo, row.a) {
+			if want == "assert" {
+				if g.assertT != row.assert || !originHasAll(g.xo, row.a) {
 					continue
 				}
-			case "cmp":
-				if cd.Rel != "==" && cd.Rel != "!=" {
-					continue
-				}
-				fallthrough
-			default:
+			} else {
 				match := func(ao, bo []string, bv ssa.Value) bool {
 					if !originHasAll(ao, row.a) {
 						return false
 					}
 					if row.bDeps {
-						return depsHasAll(an.NewDeps(descend).Of(bv), row.b)
+						return depsHasAll(g.deps(bv, descend), row.b)
 					}
 					return originHasAll(bo, row.b)
 				}
-				if !(match(g.xo, g.yo, cd.Y) || match(g.yo, g.xo, cd.X)) {
+				if !(match(g.xo, g.yo, g.yv) || match(g.yo, g.xo, g.xv)) {
 					continue
 				}
 			}
 			cands = append(cands, g)
 		}
 		if len(cands) == 0 {
-			r.Violate("R07.G", key, c.pos(fn.Pos()), sprintf("no %s guard in makeAuthKey compares [%s] with [%s]%s: the check was deleted, weakened or re-pointed",
+			r.Violate("R07.G", key, c.pos(fn.Pos()), sprintf("no %s guard in makeAuthKey (or in a helper whose result it tests) compares [%s] with [%s]%s: the check was deleted, weakened or re-pointed",
 				row.kind, strings.Join(row.a, " & "), strings.Join(row.b, " & "), row.assert))
 			continue
 		}
 		ok := false
 		var why string
 		for _, g := range cands {
-			pass := g.cond.EdgeWhen(true)
-			un := an.Guarded(fn, []an.Edge{pass}, effects)
+			un := an.Guarded(fn, []an.Edge{g.pass}, effects)
 			if len(un) == 0 {
 				ok = true
-				r.Hold("R07.G", key, c.pos(g.cond.If.Cond.Pos()), sprintf("agree edge b%d→b%d dominates %d effects", pass.From.Index, pass.To().Index, len(effects)))
+				r.Hold("R07.G", key, c.pos(g.pos), sprintf("agree edge b%d→b%d dominates %d effects%s", g.pass.From.Index, g.pass.To().Index, len(effects), g.via))
 				break
 			}
-			why = sprintf("guard at %s: with its agree edge b%d→b%d removed, %d effect(s) stay reachable (first at %s) — wrong polarity, effect before the check, or the differ branch does not abort",
-				c.pos(g.cond.If.Cond.Pos()), pass.From.Index, pass.To().Index, len(un), c.pos(un[0].Pos()))
+			why = sprintf("guard at %s%s: with its agree edge b%d→b%d removed, %d effect(s) stay reachable (first at %s) — wrong polarity, effect before the check, or the differ branch does not abort",
+				c.pos(g.pos), g.via, g.pass.From.Index, g.pass.To().Index, len(un), c.pos(un[0].Pos()))
 		}
 		if !ok {
-			r.Violate("R07.G", key, c.pos(cands[0].cond.If.Cond.Pos()), why)
+			r.Violate("R07.G", key, c.pos(cands[0].pos), why)
 		}
 	}
 
